@@ -5,8 +5,15 @@ from .. import lit
 from ..core import Case
 
 ID = 'C08'
+MANIFEST = {
+    'text': ('Coq theorem C08_asc_slice_correct about the kernel util.slice_to_ascending_slice REGENERATED from /repo on every run: for every slice key and axis '
+             'length the ascending slice used by drop/mask/assign denotes exactly the key positions in ascending order (unbounded, by arithmetic proof); '
+             'kernel-level exhaustive-grid correspondence of the regenerated kernels with the implementation.'),
+    'note': ('trusted: Coq kernel, py2v translator (validated per run on an exhaustive grid), PyDyn dynamic-value semantics, harness. '
+             'Partial: the block-walking assign/drop/mask algorithms above the kernel are covered by API-level correspondence, not yet by a refinement theorem.'),
+}
 PROPERTY_FILES = ['Properties/C08.v']
-REFUTED_FILES = ['Refuted/C08.v']
+REFUTED_FILES = []
 MODEL_FILES = ['SF/PyDyn.v', 'Gen/Gen_util.v', 'Gen/Gen_type_blocks.v']
 TRANSLATED = ['slice_to_ascending_slice', 'cols_to_slice']
 IMPORTS = 'Require Import SF.Prelude SF.PySlice SF.Dtype SF.PyDyn Gen.Gen_util Gen.Gen_type_blocks.'
